@@ -36,6 +36,14 @@ HOOK_COMMITS = []
 UNCLAIMED = {}
 
 PROPS = {
+    "C06": {
+        "coq_targets": ["Run/C06.v"],
+        "gen": [],
+        "classes": {},
+        "level_text": "",
+        "level_note": "",
+        "claimed": False,
+    },
     "C04": {
         "coq_targets": ["Props/C04.v", "Run/C04.v"],
         "audit": "Audit/C04.v",
